@@ -33,6 +33,7 @@ class World:
         self.idle_hooks = []     # callables run when the library blocks (sequential mode)
         self.sched = None        # mc.vsched.Scheduler when explorer C is active
         self.in_idle = False
+        self.timeouts = 0        # blocking calls that ended by (virtual) time-out
 
     def run_idle(self):
         """Let the environment run (deferred deliveries, drive transitions...)."""
@@ -139,6 +140,7 @@ class VQueue:
         if timeout is None:
             raise HarnessError("sequential get() without timeout would block forever")
         W.now += max(timeout, 0.0)
+        W.timeouts += 1
         raise _real_queue.Empty
 
     def get_nowait(self):
@@ -216,6 +218,7 @@ class VCondition:
             if timeout is None:
                 raise HarnessError("sequential wait() without timeout would block forever")
             W.now += max(timeout, 0.0)
+            W.timeouts += 1
             return False
         me = s.cur
         cnt = self.lock.count
